@@ -91,6 +91,9 @@ func (d *DUT) PeerConfig(c PeerCfg) server.PeerConfig {
 		PeerRoleStrictMode:      c.Strict,
 		VRF:                     d.VRF,
 	}
+	if c.LocalAS != 0 {
+		pc.LocalAS = c.LocalAS
+	}
 	opts := routingtable.ClientOptions{BestOnly: true}
 	if c.AddPathTX > 0 {
 		opts = routingtable.ClientOptions{MaxPaths: c.AddPathTX}
